@@ -112,9 +112,47 @@ func genC11(w *out.W, tier string) {
 					w.NonTrivial(fmt.Sprintf("%d|%d|%v", fd, rd, c))
 				}
 				oracleC11(w, cid, universe, fst, rst, c, files, perr)
+				// the decision does not depend on what the Executor value did before
+				if len(specs) > 0 && npartialOf(rst) <= 1 {
+					for k, op := range reuseOps(universe, fst) {
+						reused, fresh, rerr, ferr, oo := run.Reuse(dir, st, op.to, op.n)
+						w.Count("reuse-op-outcome:" + strings.SplitN(oo, ":", 2)[0])
+						if a, b := pendingObs(reused, rerr), pendingObs(fresh, ferr); a != b {
+							w.Violation(cid, "executor-reuse", fmt.Sprintf("after %s (outcome %s) the same Executor decides %s, a new Executor over the same directory and history decides %s: %s op#%d", op.desc, oo, a, b, line, k))
+							break
+						}
+					}
+				}
 			}
 		}
 	}
+}
+
+type reuseOp struct {
+	to   string
+	n    int
+	desc string
+}
+
+// reuseOps: ExecuteTo every version of the directory and one absent version, ExecuteN(1).
+func reuseOps(universe []string, fst []fstate) []reuseOp {
+	ops := []reuseOp{{n: 1, desc: "ExecuteN(1)"}}
+	for i, v := range universe {
+		if fst[i] != 0 {
+			ops = append(ops, reuseOp{to: v, desc: "ExecuteTo(" + v + ")"})
+		}
+	}
+	return append(ops, reuseOp{to: "9", desc: "ExecuteTo(9) (no such version)"})
+}
+
+func npartialOf(rst []rstate) int {
+	n := 0
+	for _, r := range rst {
+		if r == 2 {
+			n++
+		}
+	}
+	return n
 }
 
 // callPending runs the real Executor.Pending; returns the baseline revision written (version hex or "-").
